@@ -177,8 +177,12 @@ func MessageToPublish(msg *Message, version packets.Version) *packets.Publish {
 		if e := msg.PayloadFormat; e == packets.PayloadFormatString {
 			payloadFormat = &e
 		}
+		var correlationData []byte
+		if len(msg.CorrelationData) != 0 {
+			correlationData = msg.CorrelationData
+		}
 		pub.Properties = &packets.Properties{
-			CorrelationData:        msg.CorrelationData,
+			CorrelationData:        correlationData,
 			ContentType:            contentType,
 			MessageExpiry:          msgExpiry,
 			ResponseTopic:          responseTopic,
